@@ -1,8 +1,33 @@
 (** Extraction of the executable model. Only ExtrOcamlBasic is used (bool, option, list, prod,
     unit, sumbool mapped to OCaml's); Z, positive, N, nat stay the inductive types. No Extract Constant. *)
 From Coq Require Extraction ExtrOcamlBasic.
-From DV Require Import Base MReduce.
+From DV Require Import Base Gen MReduce MRounding MParams MKeccak MNtt MPoly MPolyvec MPacking MSign MSha2 MApi.
 Extraction Language OCaml.
 Extraction "model.ml"
-  Base.res Z.add Z.mul Z.sub Z.opp Z.div Z.modulo Z.of_nat Z.to_nat Z.eqb Z.ltb Z.leb
-  MReduce.montgomery_reduce MReduce.reduce32 MReduce.caddq.
+  Base.res Z.add Z.mul Z.sub Z.opp Z.div Z.modulo Z.of_nat Z.to_nat Z.eqb Z.ltb Z.leb Base.zlen
+  MReduce.montgomery_reduce MReduce.reduce32 MReduce.caddq
+  MRounding.power2round MRounding.decompose MRounding.make_hint MRounding.use_hint
+  MParams.P_lvl2 MParams.P_lvl3 MParams.P_lvl5 MParams.P_ml44 MParams.P_ml65 MParams.P_ml87
+  MParams.pPK MParams.pSK MParams.pSIG MParams.pPOLYW1 MParams.pPOLYZ MParams.pPOLYETA MParams.pGAMMA2
+  MKeccak.kinit MKeccak.keccakf MKeccak.shake128_absorb MKeccak.shake128_finalize MKeccak.shake128_squeezeblocks
+  MKeccak.shake256_absorb MKeccak.shake256_finalize MKeccak.shake256_squeeze MKeccak.shake256_absorb_once
+  MKeccak.shake256_squeezeblocks MKeccak.shake256 MKeccak.shake128_stream_init MKeccak.shake256_stream_init
+  MNtt.ntt MNtt.invntt_tomont
+  MPoly.poly_reduce MPoly.poly_caddq MPoly.poly_add MPoly.poly_sub MPoly.poly_shiftl MPoly.poly_ntt
+  MPoly.poly_invntt_tomont MPoly.poly_pointwise_montgomery MPoly.poly_power2round MPoly.chknorm
+  MPoly.rej_uniform MPoly.rej_eta MPoly.t1_pack MPoly.t1_unpack MPoly.t0_pack MPoly.t0_unpack
+  MPoly.eta_pack MPoly.eta_unpack MPoly.z_pack MPoly.z_unpack MPoly.w1_pack
+  MPoly.poly_decompose MPoly.poly_make_hint MPoly.poly_use_hint
+  MPoly.poly_uniform MPoly.poly_uniform_eta MPoly.poly_uniform_gamma1 MPoly.poly_challenge
+  MPoly.uniform_from MPoly.uniform_eta_from MPoly.challenge_from MPoly.tape_sq MPoly.SAMPLER_FUEL
+  MPolyvec.matrix_expand MPolyvec.matrix_pointwise_montgomery MPolyvec.l_pointwise_acc_montgomery
+  MPolyvec.l_uniform_eta MPolyvec.k_uniform_eta
+  MPolyvec.l_uniform_gamma1 MPolyvec.l_reduce MPolyvec.k_reduce MPolyvec.k_caddq MPolyvec.l_ntt MPolyvec.k_ntt
+  MPolyvec.l_invntt_tomont MPolyvec.k_invntt_tomont MPolyvec.k_shiftl MPolyvec.l_add MPolyvec.k_add MPolyvec.k_sub
+  MPolyvec.l_pointwise_poly_montgomery MPolyvec.k_pointwise_poly_montgomery MPolyvec.l_chknorm MPolyvec.k_chknorm
+  MPolyvec.k_power2round MPolyvec.k_decompose MPolyvec.k_make_hint MPolyvec.k_use_hint MPolyvec.k_pack_w1
+  MPacking.pack_pk MPacking.unpack_pk MPacking.pack_sk MPacking.unpack_sk MPacking.pack_sig MPacking.unpack_sig
+  MSign.keypair MSign.signature MSign.signature_trace MSign.SIGN_FUEL MSign.verify MSign.zvec MSign.zmat MSign.zpoly
+  MSha2.sha256 MSha2.sha512
+  MApi.sk_from_bytes MApi.pk_from_bytes MApi.kp_generate MApi.kp_to_bytes MApi.kp_from_bytes MApi.dil_sign MApi.dil_verify
+  MApi.frame_pure MApi.frame_hash MApi.ml_sign MApi.ml_prehash_sign MApi.ml_verify MApi.ml_prehash_verify.
